@@ -46,13 +46,17 @@ TOL = 2e-5  # relative; observed worst 5e-7 (file paths), clone bit-identical. S
 # so a 1e-11 difference in g moves the pixel by lr*1e-11/1e-8. Observed worst over seeds {0,1,2,7,12345}: see ARRAY_TOL.
 ARRAY_TOL = {"": 2e-4, "sgd": 2e-4, "sgd_momentum": 2e-4, "adam": 1e-2, "adamw": 1e-2, "adam_eps": 2e-4}
 
+# Probe learning rates: the probe is normalised to the data (max |probe| ~ 5e2) and its gradients are ~1e-6, so that the
+# probe only moves measurably (1-5 % over 4 iterations; with 1e-3 it moved by 1e-9 and probe-side state was invisible)
+# with SGD rates ~1e4 and Adam rates ~1.
 OPTS = {
-    "sgd": {"object": {"type": "sgd", "lr": 0.5}, "probe": {"type": "sgd", "lr": 1e-3}},
-    "sgd_momentum": {"object": {"type": "sgd", "lr": 0.3, "momentum": 0.8}, "probe": {"type": "sgd", "lr": 1e-3, "momentum": 0.5}},
-    "adam": {"object": {"type": "adam", "lr": 5e-2}, "probe": {"type": "adam", "lr": 1e-3}},
-    "adamw": {"object": {"type": "adamw", "lr": 5e-2}, "probe": {"type": "adamw", "lr": 1e-3}},
-    # Adam with a large eps: no round-off amplification, so the arrays can be compared tightly
-    "adam_eps": {"object": {"type": "adam", "lr": 5e-2, "eps": 1e-3}, "probe": {"type": "adam", "lr": 1e-3, "eps": 1e-1}},
+    "sgd": {"object": {"type": "sgd", "lr": 0.5}, "probe": {"type": "sgd", "lr": 2e4}},
+    "sgd_momentum": {"object": {"type": "sgd", "lr": 0.3, "momentum": 0.8}, "probe": {"type": "sgd", "lr": 1e4, "momentum": 0.5}},
+    "adam": {"object": {"type": "adam", "lr": 5e-2}, "probe": {"type": "adam", "lr": 1.0}},
+    "adamw": {"object": {"type": "adamw", "lr": 5e-2}, "probe": {"type": "adamw", "lr": 1.0}},
+    # Adam with a large eps (relative to the gradient scale of each parameter): no round-off amplification, so the arrays
+    # can be compared tightly
+    "adam_eps": {"object": {"type": "adam", "lr": 5e-2, "eps": 1e-3}, "probe": {"type": "adam", "lr": 1.0, "eps": 1e-6}},
 }
 SCHEDS = {
     "none": None,
@@ -90,23 +94,40 @@ def build(obj_type, modes, seed, learn=False):
     return P
 
 
-def start(P, okind, sname, learn=False):
-    P.ptycho.reconstruct(num_iters=0, reset=True, optimizer_params=opt_params(okind, learn), scheduler_params=copy.deepcopy(SCHEDS[sname]))
+def start(P, okind, sname, learn=False, sched=None):
+    op, sp = opt_params(okind, learn), copy.deepcopy(SCHEDS[sname])
+    if sched in START_OBJECT_ONLY:
+        op = {k: v for k, v in op.items() if k != "probe"}
+        sp = _sched_for(sname, set(op))
+    P.ptycho.reconstruct(num_iters=0, reset=True, optimizer_params=op, scheduler_params=sp)
     return P.ptycho
+
+
+def _sched_for(sname, keys):
+    sp = copy.deepcopy(SCHEDS[sname])
+    return None if sp is None else {k: v for k, v in sp.items() if k in keys}
 
 
 SCHEDULES = {
     None: None,
     # object low-pass filter constant / changed between two reconstruct() calls before the interruption point
-    "lp_const": lambda i: {"object": {"q_lowpass": 0.15}},
-    "lp_changed": lambda i: {"object": {"q_lowpass": 0.15 if i < 2 else 0.08}},
-    "lp_switched_on": lambda i: {"object": {"q_lowpass": None if i < 1 else 0.1}},
+    "lp_const": lambda i, c: {"constraints": {"object": {"q_lowpass": 0.15}}},
+    "lp_changed": lambda i, c: {"constraints": {"object": {"q_lowpass": 0.15 if i < 2 else 0.08}}},
+    "lp_switched_on": lambda i, c: {"constraints": {"object": {"q_lowpass": None if i < 1 else 0.1}}},
+    # keyword interactions between calls: the optimizers are re-configured at iteration 1 by a call that passes
+    # optimizer_params ONLY (the schedulers given at the start keep running and must follow the new optimizers) ...
+    "opt_again": lambda i, c: ({"optimizer_params": opt_params(c["okind"], c["learn"])} if i == 1 else {}),
+    # ... and a staged reconstruction: object only first, the probe optimizer attached by the call of iteration 2 (state of
+    # a parameter that had no optimizer before the interruption — e.g. its accumulated gradient — is part of the run)
+    "probe_later": lambda i, c: ({"optimizer_params": opt_params(c["okind"], c["learn"]), "scheduler_params": copy.deepcopy(SCHEDS[c["sname"]])} if i == 2 else {}),
+    "probe_later_opt_only": lambda i, c: ({"optimizer_params": opt_params(c["okind"], c["learn"])} if i == 2 else {}),
 }
+START_OBJECT_ONLY = {"probe_later", "probe_later_opt_only"}
 
 
-def run_iters(pt, start, stop, sched):
-    """Iterations start..stop-1 'with the same calls': one reconstruct() call, or — with a constraint schedule — one call
-    per iteration, each passing the constraints of that iteration."""
+def run_iters(pt, start, stop, sched, c=None):
+    """Iterations start..stop-1 'with the same calls': one reconstruct() call, or — with a call schedule — one call
+    per iteration, each passing the keyword arguments the schedule prescribes for that iteration."""
     if stop <= start:
         return
     f = SCHEDULES[sched]
@@ -114,7 +135,7 @@ def run_iters(pt, start, stop, sched):
         pt.reconstruct(num_iters=stop - start)
     else:
         for i in range(start, stop):
-            pt.reconstruct(num_iters=1, constraints=copy.deepcopy(f(i)))
+            pt.reconstruct(num_iters=1, **copy.deepcopy(f(i, c or {})))
 
 
 def observe(pt):
@@ -202,19 +223,24 @@ def w_config(item, seed=0, n=4, scratch="/tmp"):
     cls0 = {"optimizer": okind, "scheduler": sname, "learn_dataset": learn, "constraint_schedule": str(sched)}
     sub = os.path.join(scratch, f"c05-{os.getpid()}")
     os.makedirs(sub, exist_ok=True)
+    cc = {"okind": okind, "sname": sname, "learn": learn}
     try:
         with warnings.catch_warnings():
             warnings.simplefilter("ignore")
             # the oracle: an uninterrupted run that is never saved or cloned
-            ref = start(build(obj_type, modes, seed, learn), okind, sname, learn)
-            run_iters(ref, 0, n, sched)
+            ref = start(build(obj_type, modes, seed, learn), okind, sname, learn, sched)
+            R0 = observe(ref)
+            run_iters(ref, 0, n, sched, cc)
             R = observe(ref)
             if not (R["losses"][0] > 0 and np.all(np.isfinite(R["losses"])) and abs(R["losses"][-1] - R["losses"][0]) > 1e-6 * R["losses"][0]):
                 raise Broken(f"reference run is degenerate: losses {R['losses']}")
-            if learn and float(np.abs(R["positions"] - observe(start(build(obj_type, modes, seed, learn), okind, sname, learn))["positions"]).max()) == 0.0:
+            if sched not in START_OBJECT_ONLY or n > 2:
+                if rel(R["probe"], R0["probe"]) < 1e-3:
+                    raise Broken(f"the probe moved by only {rel(R['probe'], R0['probe']):.2g} in the reference run: probe-side state would be invisible")
+            if learn and float(np.abs(R["positions"] - observe(start(build(obj_type, modes, seed, learn), okind, sname, learn, sched))["positions"]).max()) == 0.0:
                 raise Broken("learnable scan positions did not move during the reference run: the dataset dimension is vacuous")
             Pb = build(obj_type, modes, seed, learn)
-            b = start(Pb, okind, sname, learn)
+            b = start(Pb, okind, sname, learn, sched)
             for k in range(0, n + 1) if paths else []:
                 saved = observe(b)
                 for path, store in paths:
@@ -223,7 +249,7 @@ def w_config(item, seed=0, n=4, scratch="/tmp"):
                     try:
                         c = resume(Pb, b, path, store, f"k{k}-{path}-{store}", sub, seed, obj_type, modes, learn)
                         ok_now = compare(t, observe(c), saved, "reloaded_equals_saved", cls, case)
-                        run_iters(c, k, n, sched)
+                        run_iters(c, k, n, sched, cc)
                         compare(t, observe(c), R, "resumed_equals_uninterrupted", cls, case)
                     except Broken:
                         raise
@@ -231,7 +257,7 @@ def w_config(item, seed=0, n=4, scratch="/tmp"):
                         t.fail(dict(cls, relation="resume_path_raises", field=type(ex).__name__), case, f"resume via {path}/{store} at k={k} raised {type(ex).__name__}: {str(ex)[:300]}")
                     t.case(key=case, nontrivial=0 < k < n, outcome=[k, path, store, round(float(R["losses"][-1]), 8)])
                 if k < n:
-                    run_iters(b, k, k + 1, sched)
+                    run_iters(b, k, k + 1, sched, cc)
             # saving/cloning must not disturb the original either
             if paths:
                 compare(t, observe(b), R, "saved_original_equals_uninterrupted", dict(cls0, path="original:" + paths[0][0]), dict(base, k="all", path=paths[0][0], store=paths[0][1]))
@@ -243,12 +269,12 @@ def w_config(item, seed=0, n=4, scratch="/tmp"):
                         case = dict(base, k=[k1, k2], path=[p1, p2], store=[s1, s2])
                         cls = dict(cls0, path=f"{p1}+{p2}")
                         try:
-                            a = start(build(obj_type, modes, seed, learn), okind, sname, learn)
-                            run_iters(a, 0, k1, sched)
+                            a = start(build(obj_type, modes, seed, learn), okind, sname, learn, sched)
+                            run_iters(a, 0, k1, sched, cc)
                             c1 = resume(None, a, p1, s1, f"p{k1}-{k2}-a", sub, seed, obj_type, modes, learn)
-                            run_iters(c1, k1, k2, sched)
+                            run_iters(c1, k1, k2, sched, cc)
                             c2 = resume(None, c1, p2, s2, f"p{k1}-{k2}-b", sub, seed, obj_type, modes, learn)
-                            run_iters(c2, k2, n, sched)
+                            run_iters(c2, k2, n, sched, cc)
                             compare(t, observe(c2), R, "resumed_twice_equals_uninterrupted", cls, case)
                         except Broken:
                             raise
@@ -307,6 +333,11 @@ def run(ctx):
     sched_cfgs = [("complex", 1, "sgd", "none")] if q else [("complex", 1, "sgd", "none"), ("potential", 2, "adam_eps", "exp"), ("pure_phase", 1, "sgd", "linear")]
     scheds = ["lp_changed", "lp_switched_on"] if q else ["lp_const", "lp_changed", "lp_switched_on"]
     items += [c + (p, False, sc) for c in sched_cfgs for sc in scheds for p in parts]
+    # keyword interactions between calls (see SCHEDULES): every split point x every path again
+    kw_cfgs = [(("complex", 1, "sgd", "exp"), "opt_again"), (("complex", 1, "sgd", "none"), "probe_later"), (("complex", 1, "sgd_momentum", "linear"), "probe_later_opt_only")]
+    if not q:
+        kw_cfgs += [(("potential", 2, "adam_eps", "linear"), "opt_again"), (("pure_phase", 1, "sgd_momentum", "exp"), "opt_again"), (("potential", 2, "sgd", "exp"), "probe_later"), (("complex", 2, "adam_eps", "none"), "probe_later"), (("potential", 2, "sgd", "exp"), "probe_later_opt_only")]
+    items += [c + (p, False, sc) for c, sc in kw_cfgs for p in parts]
     ctx.coverage["bounds"] = {"iterations": n, "splits": list(range(n + 1)), "paths": [f"{p}/{s}" for p, s in PATHS], "configs": len(configs), "pairs_of_splits": not q}
     ctx.pmap(w_config, items, chunk=1, label="resume lattice", seed=ctx.seed, n=n, scratch=ctx.scratch)
 
